@@ -8,7 +8,9 @@ from capi import Lib
 from vlib import Oracle, build_lib, hx, md5
 
 THEOREMS = None
-CORRESPONDENCE = ["dec_generic model == LZ4_decompress_safe* (return value and whole destination image), fast loop on",
+ORACLES = ["block", "dec2"]
+CORRESPONDENCE = ["DecStream.decompress_safe_continue model == LZ4_setStreamDecode / LZ4_decompress_safe_continue sessions in every documented geometry (return value, destination image, the four LZ4_streamDecode_t fields after every call)",
+                  "dec_generic model == LZ4_decompress_safe* (return value and whole destination image), fast loop on",
                   "dec_generic model == LZ4_decompress_safe* (return value and whole destination image), fast loop off"]
 RULE = ("blocks generated from sequences by an independent encoder (valid), mutations of them, random bytes, "
         "small-alphabet enumeration; x API {safe, partial, usingDict prefix/external, partial_usingDict} x capacity "
@@ -30,6 +32,9 @@ def gen_cases(tier, seed):
     for i in range(n):
         cases.append({"bseed": rng.randrange(1 << 48), "kind": rng.choice(["valid", "valid", "mutated", "mutated", "random", "validbig", "streamdec"]),
                       "count": 24})
+    import declib2
+    for i in range({"quick": 12, "search": 24, "thorough": 96}[tier]):
+        cases.append({"bseed": rng.randrange(1 << 48), "kind": "sdmodel", "geom": declib2.GEOMS2[i % len(declib2.GEOMS2)], "edge": i % 6 == 5, "count": 1})
     if tier == "thorough":
         cases.append({"kind": "exhaustive", "maxlen": 5, "count": 0, "bseed": 0})
     return cases
@@ -38,7 +43,7 @@ DICT_SIZES = [0, 0, 1, 7, 8, 100, 4000, 65534, 65535, 65536, 70000]
 ALPHA = [0x00, 0x01, 0x0F, 0x10, 0xF0, 0xFF]
 
 def worker_init(ctx):
-    return {"libs": {k: declib.Dec(Lib(v)) for k, v in ctx["libs"].items()}, "oracle": Oracle(), "hist_cache": {}}
+    return {"libs": {k: declib.Dec(Lib(v)) for k, v in ctx["libs"].items()}, "oracle": Oracle(), "hist_cache": {}, "ctx": ctx, "c05st": None}
 
 def one(st, blk, content_len, rng, res, extra_ok=True):
     """run one block through a random API/cap/dict choice on both builds + model"""
@@ -184,6 +189,21 @@ def run_case(st, case):
     elif kind == "streamdec":
         for j in range(case["count"] // 4):
             stream_decode_case(st, rng, res)
+    elif kind == "sdmodel":
+        # tie of Model.DecStream (theorem C02_stream_session_safe): LZ4_setStreamDecode / LZ4_decompress_safe_continue sessions in
+        # every documented geometry, real code (ASan, exact buffers) vs the extracted model after every call: return value,
+        # destination image, the four LZ4_streamDecode_t fields.  Machinery shared with C05 (declib2.run_stream).
+        import c05
+        if st["c05st"] is None:
+            st["c05st"] = c05.worker_init(st["ctx"])
+        r5 = {"evals": 0, "fails": [], "keys": set(), "stats": collections.Counter()}
+        if case.get("edge"):
+            c05.check_stream(st["c05st"], rng, r5, "extchain", True, edge=True)
+        else:
+            c05.check_stream(st["c05st"], rng, r5, case["geom"], False)
+        res["evals"] += r5["evals"]; res["keys"] |= r5["keys"]; res["stats"].update(r5["stats"])
+        for f in r5["fails"]:
+            res["fails"].append({"status": f["status"], "what": "stream session: " + f["what"], "detail": f.get("detail")})
     else:
         for j in range(case["count"]):
             ds = rng.choice(DICT_SIZES)
